@@ -9,6 +9,7 @@ import (
 	"os"
 	"path/filepath"
 	"strings"
+	"sync"
 	"testing"
 	"time"
 
@@ -409,4 +410,53 @@ func TestC07_CollisionPairs(t *testing.T) {
 		}
 	}
 	c07Pair.rec().Exhaustive()
+}
+
+// Spelling preimages: unknown option words whose hash under a cheap 32-bit hash function equals that of a known one
+// (witness/spelling-preimages.jsonl, found by tools/witness/preimage). A lookup that keeps only the hash of each known
+// spelling takes them for the known word.
+type spellingPreimage struct {
+	Hash     string `json:"hash"`
+	Known    string `json:"known"`
+	Spelling string `json:"spelling"`
+}
+
+var (
+	spellOnce sync.Once
+	spellAll  []spellingPreimage
+)
+
+// spellingsLike returns the stored unknown spellings that collide with one of the given known words (sorted by file order).
+func spellingsLike(known ...string) []string {
+	spellOnce.Do(func() {
+		root := os.Getenv("VERIF_ROOT")
+		if root == "" {
+			root = ".."
+		}
+		f, err := os.Open(filepath.Join(root, "witness", "spelling-preimages.jsonl"))
+		if err != nil {
+			fmt.Println("INFRA: spelling preimage table:", err)
+			os.Exit(3)
+		}
+		defer f.Close()
+		sc := bufio.NewScanner(f)
+		for sc.Scan() {
+			var p spellingPreimage
+			if json.Unmarshal(sc.Bytes(), &p) == nil && p.Spelling != "" {
+				spellAll = append(spellAll, p)
+			}
+		}
+	})
+	var out []string
+	for _, p := range spellAll {
+		for _, k := range known {
+			if p.Known == k {
+				out = append(out, p.Spelling)
+			}
+		}
+	}
+	if len(out) == 0 {
+		out = []string{"zz-no-preimage"}
+	}
+	return out
 }
